@@ -329,7 +329,14 @@ func (x *Exec) merge(ins []incoming, hint string) (*Term, *State) {
 		}
 	}
 	for _, k := range sortedKeysBool(keys) {
-		f := base.fams[k]
+		f, ok := base.fams[k]
+		if !ok {
+			if k == bigFamily.Name {
+				f = bigFamily
+			} else {
+				panic("merge: unknown heap family " + k)
+			}
+		}
 		v := x.hp.heapGet(base, f)
 		for i := len(ins) - 2; i >= 0; i-- {
 			v = mkIte(ins[i].cond, x.hp.heapGet(ins[i].st, f), v)
@@ -463,6 +470,7 @@ func (x *Exec) havoc(fr *Frame, ns, old *State, ms *ModSet, reach *Term, hint st
 			ns.ghost[g.Name] = x.vc.fresh("G."+g.Name, g.Sort)
 		}
 		ns.heap[bigFamily.Name] = x.vc.fresh("H.BigVal", bigFamily.Sort)
+		ns.fams[bigFamily.Name] = bigFamily
 		ms.Ctr = true
 	}
 	if ms.Ctr || len(ms.AllocFams) > 0 {
